@@ -881,6 +881,19 @@ def kind_fault(kindname: str) -> dict:
     return {"e": "flag", "name": "head_fails", "v": True}
 
 
+def kind_fault2(kindname: str) -> dict | None:
+    """a one-shot failure of load() that leaves the tag as it is (custom, S3) / a content change that keeps
+    the (size, mtime) signature (file)"""
+    t = KINDS[kindname]["type"]
+    if t == "custom":
+        return {"e": "fault", "on": "load", "cls": "ValueError"}
+    if t == "s3":
+        return {"e": "fault", "on": "load", "cls": "RuntimeError"}
+    if t == "file":
+        return dict(W, same_sig=True)
+    return None
+
+
 def orders(n_a: int = 3, n_b: int = 3) -> list[list[int]]:
     """all interleavings of thread 0's and thread 1's steps (start / etag returns / load returns)"""
     out = []
@@ -900,10 +913,12 @@ def conc_event(order_idx: int, forces=(False, False), src_at: int | None = None,
 
 
 def alphabet(kindname: str) -> list[dict]:
-    """the 10-event alphabet of the exhaustive enumeration ("X" = two overlapping checks, its schedule
-    is picked by position, see `with_params`)"""
-    return [W, INV, DEL, ev_check(), ev_check(force=True), ev_check(mid=[W]),
-            {"e": "advance", "dt": 250_000}, {"e": "advance", "dt": 8_000_000}, kind_fault(kindname), {"e": "X"}]
+    """the alphabet of the exhaustive enumeration: 10 events, plus an 11th for custom / S3 / file kinds
+    ("X" = two overlapping checks, its schedule is picked by position, see `with_params`)"""
+    a = [W, INV, DEL, ev_check(), ev_check(force=True), ev_check(mid=[W]),
+         {"e": "advance", "dt": 250_000}, {"e": "advance", "dt": 8_000_000}, kind_fault(kindname), {"e": "X"}]
+    extra = kind_fault2(kindname)
+    return a + [extra] if extra is not None else a
 
 
 def with_params(hist: list[dict], salt: int) -> list[dict]:
@@ -1034,24 +1049,24 @@ def all_cases(run: lib.Run, scale: int = 1):
     s = run.seed
     others = [k for k in KINDS if k != "custom"]
     if quick:
-        yield from enum_cases("custom", 3, {4: 4 if scale == 1 else 1}, s)
+        yield from enum_cases("custom", 3, {4: 8 if scale == 1 else 1}, s)
         for kind in others:
-            yield from enum_cases(kind, 2, {3: 5, 4: 60} if scale == 1 else {3: 1, 4: 12}, s)
+            yield from enum_cases(kind, 2, {3: 7, 4: 100} if scale == 1 else {3: 1, 4: 12}, s)
         yield from conc_cases("custom", 1, s, "tasks")
         yield from conc_cases("custom", 4 if scale == 1 else 1, s, "threads")
         for kind in others:
-            yield from conc_cases(kind, 8 if scale == 1 else 2, s, "tasks")
+            yield from conc_cases(kind, 10 if scale == 1 else 2, s, "tasks")
         for kind in ("custom_async", "file", "http_etag", "s3_vid"):
-            yield from conc_cases(kind, 24 if scale == 1 else 6, s, "threads")
+            yield from conc_cases(kind, 30 if scale == 1 else 6, s, "threads")
     else:
-        yield from enum_cases("custom", 4, {5: 8 if scale == 1 else 2}, s)
+        yield from enum_cases("custom", 4, {5: 12 if scale == 1 else 3}, s)
         for kind in others:
-            yield from enum_cases(kind, 3, {4: 6, 5: 80} if scale == 1 else {4: 2, 5: 25}, s)
+            yield from enum_cases(kind, 3, {4: 8, 5: 110} if scale == 1 else {4: 2, 5: 30}, s)
         for kind in KINDS:
             yield from conc_cases(kind, 1, s, "tasks")
             yield from conc_cases(kind, 1 if kind in ("custom", "file", "http_etag") else 6, s, "threads")
     r = random.Random(run.seed * 7919 + 10)
-    yield from random_cases(r, (400 if quick else 4000) * scale, 40)
+    yield from random_cases(r, (350 if quick else 4000) * scale, 40)
 
 
 # ----------------------------------------------------------------------------- evaluation
@@ -1208,9 +1223,10 @@ F9_LINE = ("F9 HTTPPolicySource.etag() is the locally cached tag: server change 
 
 
 def check(run: lib.Run, audit: dict) -> int:
-    run.rule = ("exhaustive: every history of length ≤3 (quick) / ≤4 (thorough) over the 10-event alphabet {write new valid doc, "
+    run.rule = ("exhaustive: every history of length ≤3 (quick) / ≤4 (thorough) over the event alphabet {write new valid doc, "
                 "write invalid doc, delete, check, forced check, check with a change between etag() and load(), short advance, "
-                "long advance, kind-specific fault (etag() raises / touch / HTTP error status / S3 HEAD failing), two overlapping checks} "
+                "long advance, kind-specific fault (etag() raises / touch / HTTP error status / S3 HEAD failing), two overlapping checks, "
+                "and for custom/S3/file kinds an 11th event: one-shot load() failure / same-signature file write} "
                 "× initial_load on/off for the scripted custom source, the next length with a deterministic stride; the other 11 source "
                 "kinds (async custom, None/non-str tag, file ± mtime tag, HTTP ± server ETags, S3 etag / version_id / checksum×2) "
                 "exhaustive to length 2 (quick) / 3 (thorough) and strided above; every order of the source calls of two overlapping "
